@@ -5,19 +5,6 @@ From Gv Require Import lib.Bytes lib.Json C02.Model C02.Spec C02.ProofsBase C07.
 From Coq Require Import Lia.
 Open Scope N_scope.
 
-Definition rep_field_ok (f : field) : bool :=
-  match f with
-  | Fld _ (Some _) None None (NStr [_] false) | Fld _ (Some _) None None (NInt [_] false)
-  | Fld _ (Some _) None None (NFloat [_] false) | Fld _ (Some _) None None (NBool [_] false) => true
-  | _ => false
-  end.
-Definition rep_wf (n : node) : bool :=
-  match n with
-  | NObj [] true _ [] _ false fields => forallb rep_field_ok fields
-  | _ => false
-  end.
-
-Definition is_atom (j : json) : bool := match j with JStr _ | JNum _ | JBool _ => true | _ => false end.
 
 Lemma sub_atom_eq : forall x y, is_atom x = true -> sub_b x y = true -> y = x.
 Proof.
@@ -27,31 +14,163 @@ Proof.
   - apply bytes_eqb_true in Hs. subst. reflexivity.
 Qed.
 
-(* what one rep field does in the two walks, on an object value *)
-Lemma scalar_walks : forall k kind (accept accept' : json -> bool) m,
-  (forall x, accept x = true -> is_atom x = true /\ accept' x = true) ->
-  (exists x, obj_get k m = Some x /\ is_atom x = true /\
-     scalar_prewalk [] [k] false kind accept (JObj m) = ([], WOk) /\
-     scalar_render [k] false accept' (JObj m) = (marshal x, false))
-  \/ (exists e, scalar_prewalk [] [k] false kind accept (JObj m) = (e, WErr)).
+(* what one rep field does in the two walks, on an object value: a function of the value's member *)
+Definition rep_key (child : node) : bytes := match node_path child with [k] => k | _ => [] end.
+Definition rep_accept (child : node) : json -> bool :=
+  match child with
+  | NStr _ _ => is_jstr
+  | NInt _ _ | NFloat _ _ => is_jnum
+  | NBool _ _ => is_jbool
+  | _ => fun _ => false
+  end.
+
+Lemma rep_accept_atom : forall child x, rep_accept child x = true -> is_atom x = true.
+Proof. intros child x H. destruct child; simpl in H; try discriminate; destruct x; try discriminate; reflexivity. Qed.
+
+Lemma rep_field_spec : forall name on child tns m,
+  rep_field_ok (Fld name on None None child) = true ->
+  match obj_get (rep_key child) m with
+  | Some x =>
+    if rep_accept child x
+    then prewalk no_deny child (JObj m) [] tns = (JObj m, [], WOk) /\ render child (JObj m) tns false = (marshal x, false)
+    else exists e, prewalk no_deny child (JObj m) [] tns = (JObj m, e, WErr)
+  | None => exists e, prewalk no_deny child (JObj m) [] tns = (JObj m, e, WErr)
+  end.
 Proof.
-  intros k kind accept accept' m Hacc. unfold scalar_prewalk, scalar_render. simpl.
-  destruct (obj_get k m) as [x|] eqn:G; simpl.
-  - destruct x; simpl; try (right; eexists; reflexivity);
-      match goal with |- context [accept ?v] => destruct (accept v) eqn:A end;
-      try (right; eexists; reflexivity);
-      destruct (Hacc _ A) as [Hat Ha']; left; eexists; (split; [reflexivity|]); (split; [exact Hat|]); rewrite ?Ha'; split; reflexivity.
-  - right. eexists. reflexivity.
+  intros name on child tns m Hok.
+  destruct on; [|discriminate].
+  destruct child; simpl in Hok; try discriminate;
+    destruct path as [|k [|? ?]]; try discriminate; destruct nullable; try discriminate;
+    unfold rep_key; simpl; unfold scalar_prewalk, scalar_render; simpl;
+    destruct (obj_get k m) as [x|] eqn:G; simpl; try (eexists; reflexivity);
+    destruct x; simpl; try (eexists; reflexivity); split; reflexivity.
 Qed.
 
-Lemma rep_field_walk : forall name names child tn tns m,
-  rep_field_ok (Fld name (Some names) None None child) = true ->
-  (exists k x, obj_get k m = Some x /\ is_atom x = true /\
-     prewalk no_deny child (JObj m) [] (tn :: tns) = (JObj m, [], WOk) /\
-     render child (JObj m) (tn :: tns) false = (marshal x, false) /\
-     forall m', obj_get k m' = Some x ->
-       prewalk no_deny child (JObj m') [] (tn :: tns) = (JObj m', [], WOk) /\
-       render child (JObj m') (tn :: tns) false = (marshal x, false))
-  \/ (exists e, prewalk no_deny child (JObj m) [] (tn :: tns) = (JObj m, e, WErr)).
+(* the two field loops on a flat representation, as functions of the object's members *)
+Fixpoint fields_ok (tns' : list (option bytes)) (fs : list field) (m : list (bytes * json)) : bool :=
+  match fs with
+  | [] => true
+  | Fld name on pon auth child :: r =>
+    if skip_field on pon tns' then fields_ok tns' r m
+    else match obj_get (rep_key child) m with
+         | Some x => rep_accept child x && fields_ok tns' r m
+         | None => false
+         end
+  end.
+Fixpoint fields_bytes (tns' : list (option bytes)) (fs : list field) (m : list (bytes * json)) (comma : bool) : bytes :=
+  match fs with
+  | [] => []
+  | Fld name on pon auth child :: r =>
+    if skip_field on pon tns' then fields_bytes tns' r m comma
+    else ((if comma then [44] else []) ++ 34 :: name ++ [34; 58]) ++
+         (match obj_get (rep_key child) m with Some x => marshal x | None => [] end) ++ fields_bytes tns' r m true
+  end.
+
+Lemma pw_fields_flat : forall fs tns' m, forallb rep_field_ok fs = true ->
+  exists e, pw_fields no_deny true [] [] tns' fs (JObj m) =
+            (JObj m, e, if fields_ok tns' fs m then None else Some (false, WErr)).
 Proof.
-Admitted.
+  induction fs as [|[name on pon auth child] r IH]; intros tns' m Hok; simpl.
+  - eexists. reflexivity.
+  - simpl in Hok. apply andb_prop in Hok as [Hf Hr].
+    assert (Hpa : pon = None /\ auth = None).
+    { destruct on; [|discriminate]. destruct pon; [discriminate|]. destruct auth; [discriminate|]. split; reflexivity. }
+    destruct Hpa as [-> ->].
+    destruct (skip_field on None tns'); [apply IH; exact Hr|].
+    unfold pw_denied.
+    pose proof (rep_field_spec name on child tns' m Hf) as Hs.
+    destruct (obj_get (rep_key child) m) as [x|].
+    + destruct (rep_accept child x).
+      * destruct Hs as [Hp _]. rewrite Hp. destruct (IH tns' m Hr) as [e He]. rewrite He. simpl. eexists. reflexivity.
+      * destruct Hs as [e Hp]. rewrite Hp. simpl. eexists. reflexivity.
+    + destruct Hs as [e Hp]. rewrite Hp. simpl. eexists. reflexivity.
+Qed.
+
+Lemma rd_fields_flat : forall fs tns' m comma, forallb rep_field_ok fs = true -> fields_ok tns' fs m = true ->
+  rd_fields true (JObj m) tns' fs comma = (fields_bytes tns' fs m comma, false).
+Proof.
+  induction fs as [|[name on pon auth child] r IH]; intros tns' m comma Hok Hfo; simpl; [reflexivity|].
+  simpl in Hok. apply andb_prop in Hok as [Hf Hr]. simpl in Hfo.
+  assert (Hpa : pon = None /\ auth = None).
+  { destruct on; [|discriminate]. destruct pon; [discriminate|]. destruct auth; [discriminate|]. split; reflexivity. }
+  destruct Hpa as [-> ->].
+  destruct (skip_field on None tns'); [apply IH; assumption|].
+  pose proof (rep_field_spec name on child tns' m Hf) as Hs.
+  destruct (obj_get (rep_key child) m) as [x|]; [|discriminate].
+  apply andb_prop in Hfo as [Ha Hfo]. rewrite Ha in Hs. destruct Hs as [_ Hrd]. rewrite Hrd.
+  rewrite (IH tns' m true Hr Hfo). reflexivity.
+Qed.
+
+(* rendering a flat representation *)
+Definition flat_render (fields : list field) (v : json) : option bytes :=
+  match v with
+  | JNull => Some b_null
+  | JObj m =>
+    let tns' := [typename_of (JObj m)] in
+    if fields_ok tns' fields m then Some (123 :: fields_bytes tns' fields m false ++ [125]) else None
+  | _ => None
+  end.
+
+Lemma tn_bad_nil : forall ty tn, tn_bad ty [] tn = false.
+Proof. intros ty tn. destruct tn; reflexivity. Qed.
+
+Lemma render_rep_flat : forall ty inacc fields v, forallb rep_field_ok fields = true ->
+  render_rep (NObj [] true ty [] inacc false fields) v = (v, flat_render fields v).
+Proof.
+  intros ty inacc fields v Hok. unfold render_rep. rewrite prewalk_obj_eq. cbv zeta. cbn [get_path].
+  destruct v as [| | | | |m]; try reflexivity.
+  cbn [is_null_or_missing]. rewrite tn_bad_nil. unfold push_names. cbn [map app].
+  destruct (pw_fields_flat fields [typename_of (JObj m)] m Hok) as [e He]. rewrite He.
+  unfold flat_render.
+  destruct (fields_ok [typename_of (JObj m)] fields m) eqn:Fo; cbn [set_path].
+  - rewrite render_obj_eq. cbv zeta. cbn [get_path is_null_or_missing].
+    rewrite tn_bad_nil. rewrite (rd_fields_flat fields [typename_of (JObj m)] m false Hok Fo). reflexivity.
+  - reflexivity.
+Qed.
+
+Lemma fields_mono : forall fs tns' mF m0 comma, forallb rep_field_ok fs = true -> sub_members mF m0 = true ->
+  fields_ok tns' fs mF = true ->
+  fields_ok tns' fs m0 = true /\ fields_bytes tns' fs m0 comma = fields_bytes tns' fs mF comma.
+Proof.
+  induction fs as [|[name on pon auth child] r IH]; intros tns' mF m0 comma Hok Hs Hf; simpl; [split; reflexivity|].
+  simpl in Hok. apply andb_prop in Hok as [Hfo Hr]. simpl in Hf.
+  destruct (skip_field on pon tns'); [apply IH; assumption|].
+  destruct (obj_get (rep_key child) mF) as [x|] eqn:G; [|discriminate].
+  apply andb_prop in Hf as [Ha Hf].
+  destruct (sub_members_get _ _ _ _ Hs G) as (x' & G' & Hx).
+  apply (sub_atom_eq _ _ (rep_accept_atom _ _ Ha)) in Hx. subst x'. rewrite G', Ha.
+  destruct (IH tns' mF m0 true Hr Hs Hf) as [H1 H2]. rewrite H1, H2. split; reflexivity.
+Qed.
+
+Lemma fields_all_skipped : forall fs m comma, forallb rep_field_ok fs = true ->
+  fields_bytes [None] fs m comma = [].
+Proof.
+  induction fs as [|[name on pon auth child] r IH]; intros m comma Hok; simpl; [reflexivity|].
+  simpl in Hok. apply andb_prop in Hok as [Hfo Hr].
+  destruct on as [names|]; [|discriminate]. destruct pon; [discriminate|].
+  simpl. apply IH. exact Hr.
+Qed.
+
+Lemma typename_sub : forall mF m0 t, sub_members mF m0 = true -> typename_of (JObj mF) = Some t -> typename_of (JObj m0) = Some t.
+Proof.
+  intros mF m0 t Hs H. unfold typename_of in *.
+  destruct (obj_get [95;95;116;121;112;101;110;97;109;101] mF) as [v|] eqn:G; [|discriminate].
+  destruct v; try discriminate. inversion H; subst.
+  destruct (sub_members_get _ _ _ _ Hs G) as (v' & G' & Hv). rewrite G'.
+  apply (sub_atom_eq (JStr t) v' eq_refl) in Hv. subst. reflexivity.
+Qed.
+
+Opaque typename_of.
+Lemma flat_render_mono : forall fields vF v0 b, forallb rep_field_ok fields = true -> sub_b vF v0 = true ->
+  flat_render fields vF = Some b -> b <> b_null -> b <> b_empty_obj -> flat_render fields v0 = Some b.
+Proof.
+  intros fields vF v0 b Hok Hs Hf Hn He. unfold flat_render in Hf.
+  destruct vF as [| | | | |mF]; try discriminate; [inversion Hf; congruence|].
+  destruct (sub_obj_inv _ _ Hs) as (m0 & -> & Hm).
+  destruct (fields_ok [typename_of (JObj mF)] fields mF) eqn:Fo; [|discriminate]. inversion Hf; subst b. clear Hf.
+  destruct (typename_of (JObj mF)) as [t|] eqn:TN.
+  - unfold flat_render. rewrite (typename_sub _ _ _ Hm TN).
+    destruct (fields_mono fields [Some t] mF m0 false Hok Hm Fo) as [H1 H2]. rewrite H1, H2. reflexivity.
+  - rewrite fields_all_skipped in He by exact Hok. exfalso. apply He. reflexivity.
+Qed.
+Transparent typename_of.
